@@ -757,7 +757,10 @@ class DataboxWorld(World):
     def _check_heap(self, opname, pred, mutable=None):
         """Every heap object not declared mutable is byte-identical; declared ones conform to their Exp."""
         mutable = mutable or {}
+        exempt = getattr(self, "_exempt", set())
         for i, (real, m) in self.heap.items():
+            if i in exempt and i not in mutable:
+                continue
             if i in mutable:
                 bad = conforms(real, mutable[i], f"{opname} series")
                 if bad:
@@ -1045,12 +1048,15 @@ class DataboxWorld(World):
         if names is not None:
             cand &= set(names)
         out = []
+        self._lay_unspecified = set()
         for n in sorted(cand):
             ms, mo = self.heap[bs[n][1]][1], self.heap[bo[n][1]][1]
-            if ms.lo is None:
-                continue            # unspecified corner: receiver item of unknown frequency is skipped
-            if mo.lo is None or ms.freq != mo.freq:
-                continue            # unspecified corner: different frequencies are skipped
+            if ms.lo is None or mo.lo is None or ms.freq != mo.freq:
+                # unspecified corner (the implementation skips receiver items of unknown frequency and pairs of
+                # different frequencies; filling an empty receiver would be just as defensible): adopted, not judged
+                if not (ms.lo is None and mo.lo is None):
+                    self._lay_unspecified.add(bs[n][1])
+                continue
             if not (ms.nv == mo.nv or ms.nv == 1 or mo.nv == 1):
                 return None
             if bs[n][1] == bo[n][1]:
@@ -1089,7 +1095,11 @@ class DataboxWorld(World):
         kw = {} if names is None else {"names": list(names)}
         status, r, _ = self._run(opname, pred, lambda: getattr(box, which)(other, **kw))
         self._crash_guard(opname, pred, status, r)
-        self._check_heap(opname, pred, mutable)
+        self._exempt = set(self._lay_unspecified) - other_ids
+        try:
+            self._check_heap(opname, pred, mutable)
+        finally:
+            self._exempt = set()
         self._check_bindings_unchanged(opname, pred)
         if any(sum(1 for hh, b in self.bind.items() for nn, x in b.items() if x == ("s", i)) > 1 for i in mutable):
             self.probes["shared_series_mutated_through_one_box"] += 1
@@ -1141,7 +1151,11 @@ class DataboxWorld(World):
             mutable[self.bind[h][n][1]] = sm.t_underlay(ms, moc)
         status, r, _ = self._run("box.prepend", "", lambda: box.prepend(other, P(f, a["end"])))
         self._crash_guard("box.prepend", "", status, r)
-        self._check_heap("box.prepend", "", mutable)
+        self._exempt = set(self._lay_unspecified) - {self.bind[o][n][1] for n in self.bind[o] if self.bind[o][n][0] == "s"}
+        try:
+            self._check_heap("box.prepend", "", mutable)
+        finally:
+            self._exempt = set()
         self._check_bindings_unchanged("box.prepend", "")
         self._rederive()
         return "ok"
